@@ -2160,13 +2160,14 @@ theorem stageS_refines (st : Stage) (hst : notCat st)
     refine ⟨?_, by simp⟩
     intro e' he
     simp at he; subst he
-    refine ⟨_, rfl, refS_label h hw k t _, ⟨nodup_labelDict k hw.nodup, ?_⟩⟩
+    rw [h.inv]
+    refine ⟨_, rfl, refS_label h hw (labelKey e.inv k) t _, ⟨nodup_labelDict (labelKey e.inv k) hw.nodup, ?_⟩⟩
     intro k' t' hl
     injection hl with hl; injection hl with hk ht; subst hk
-    have := dget_labelDict e.d k k
+    have := dget_labelDict e.d (labelKey e.inv k) (labelKey e.inv k)
     simp only [labelDict] at this
     rw [this]
-    cases dget e.d k <;> simp
+    cases dget e.d (labelKey e.inv k) <;> simp
   | enccat t =>
     cases t with
     | none =>
